@@ -109,13 +109,18 @@ Print Assumptions C28_extent_release.
    on this run (Gen/C28_gen.v): _async_response spins until the extent is registered, releases the
    extent of every answered request, stores data at the extent's offset, sets _prefetch_done when no
    extent is left, does not save an EOF status; _start_prefetch ignores an empty list and sets both
-   flags; _prefetch_thread records (offset, length) under the request's number;
+   flags; _prefetch_thread records (offset, length) under the request's number and stores nothing else;
+   _prefetch_done / _prefetching are written only by __init__, _read_prefetch, _start_prefetch and (under
+   _prefetch_lock) _async_response; _read_prefetch returns None whenever the position is not buffered;
+   prefetch() keeps no state of its own;
    MAX_REQUEST_SIZE >= 1, and readv at the real constant *)
 Theorem C28_source_shape :
   src_async_spins_until_registered = true /\ src_async_releases_extent = true /\
   src_async_stores_at_extent_offset = true /\ src_async_done_when_no_extent_left = true /\
   src_async_eof_status_not_saved = true /\ src_start_prefetch_ignores_empty = true /\
-  src_start_prefetch_sets_flags = true /\ src_thread_registers_request_extent = true.
+  src_start_prefetch_sets_flags = true /\ src_thread_registers_request_extent = true /\
+  src_prefetch_flag_writers_pinned = true /\ src_thread_only_records_extents_under_lock = true /\
+  src_read_prefetch_none_when_unbuffered = true /\ src_prefetch_keeps_no_state = true.
 Proof. exact src_shape. Qed.
 Print Assumptions C28_source_shape.
 
